@@ -98,6 +98,18 @@ def build_driver(name, sources, nitro_sources=(), flags=(), ldflags=(), sanitize
     case (None, stderr) is returned."""
     bdir = os.path.join(BUILD, srctag(), name)
     os.makedirs(bdir, exist_ok=True)
+    # checks may be started in parallel and share drivers (opt_driver, log_driver_*): one builder at a time per driver
+    import fcntl
+    lockf = open(os.path.join(bdir, ".lock"), "w")
+    fcntl.flock(lockf, fcntl.LOCK_EX)
+    try:
+        return _build_driver_locked(name, bdir, sources, nitro_sources, flags, ldflags, sanitize, allow_fail)
+    finally:
+        fcntl.flock(lockf, fcntl.LOCK_UN)
+        lockf.close()
+
+
+def _build_driver_locked(name, bdir, sources, nitro_sources, flags, ldflags, sanitize, allow_fail):
     fl = BASE_FLAGS + (SAN_FLAGS if sanitize else []) + list(flags) + [
         "-I" + os.path.join(NITRO_SRC, "include"), "-I" + HARNESS]
     tus = [(os.path.join(HARNESS, s), os.path.join(bdir, "h_" + s.replace("/", "_") + ".o")) for s in sources]
